@@ -1078,7 +1078,52 @@ func (e *Engine) copyOp(st *State, dst, src Val, call *ssa.CallCommon, pos token
 	}
 	k := kindOf(et)
 	if k == KStruct || k == KSlice || k == KArr {
-		e.unsupported("copy of non-scalar elements")
+		// aggregate elements: every leaf of element i of dst receives the corresponding leaf of element i of src; the
+		// frame is coarse (the whole backing array of dst may change, nothing else)
+		if src.K == KStr {
+			e.unsupported("copy of a string into non-byte elements")
+			return Val{K: KInt, T: n}
+		}
+		q := e.fresh("qi")
+		type leaf struct{ heap, addr string }
+		var dl, sl []leaf
+		leafPaths(elemAt(dst.Base, dst.Off, q), et, func(addr string, lk Kind, lt types.Type) { dl = append(dl, leaf{heapFor(lk, lt), addr}) })
+		leafPaths(elemAt(src.Base, src.Off, q), et, func(addr string, lk Kind, lt types.Type) { sl = append(sl, leaf{heapFor(lk, lt), addr}) })
+		if len(dl) != len(sl) || len(dl) == 0 {
+			e.unsupported("copy of non-scalar elements (shape)")
+			return Val{K: KInt, T: n}
+		}
+		var heaps []string
+		seen := map[string]bool{}
+		for _, l := range dl {
+			if !seen[l.heap] {
+				seen[l.heap] = true
+				heaps = append(heaps, l.heap)
+			}
+		}
+		sortStrings(heaps)
+		if dst.Root == "" {
+			var preds []havocPred
+			base := dst.Base
+			for _, hn := range heaps {
+				preds = append(preds, havocPred{hn, func(a string) string { return "(= (root " + a + ") (root " + base + "))" }})
+			}
+			e.checkHavocFrame(st, "copy", false, preds, pos)
+		}
+		olds := map[string]string{}
+		for _, hn := range heaps {
+			olds[hn] = st.heap(hn)
+		}
+		for _, hn := range heaps {
+			nw := st.havocHeap(hn)
+			for i, l := range dl {
+				if l.heap != hn {
+					continue
+				}
+				st.assume("(forall ((" + q + " Int)) (! (=> (and (<= 0 " + q + ") (< " + q + " " + n + ")) (= (select " + nw + " " + l.addr + ") (select " + olds[sl[i].heap] + " " + sl[i].addr + "))) :pattern ((select " + nw + " " + l.addr + "))))")
+			}
+			st.assume("(forall ((a Addr)) (! (=> (not (= (root a) (root " + dst.Base + "))) (= (select " + nw + " a) (select " + olds[hn] + " a))) :pattern ((select " + nw + " a))))")
+		}
 		return Val{K: KInt, T: n}
 	}
 	hn := heapFor(k, et)
